@@ -241,7 +241,15 @@ func (eng *Engine) solve(body string, o *Obligation, cfg *SolverCfg) {
 	cancel()
 	var log strings.Builder
 	fmt.Fprintf(&log, "[z3-new %0.2fs] %s\n", r.secs, r.status)
-	if !finish(r) {
+	if !finish(r) && o.kind == "vacuity" {
+		// satisfiability under quantified assumptions is rarely decided; a vacuity check only
+		// matters when it is refuted, so it gets the short budget only
+		o.status = "undecided"
+		o.output = log.String()
+		o.secs = time.Since(t0).Seconds()
+		return
+	}
+	if o.status == "" {
 		// race all three
 		cvcFile := base + ".cvc5.smt2"
 		_ = os.WriteFile(cvcFile, []byte("(set-option :produce-models true)\n(set-logic ALL)\n"+body), 0o644)
@@ -429,6 +437,9 @@ func (eng *Engine) solveAll(results []*FuncResult, cfg *SolverCfg, filter func(o
 			continue
 		}
 		if j.o.expect != "sat" && (j.o.goal == True || j.o.pc == False) {
+			if os.Getenv("GOVC_DEBUG") != "" {
+				fmt.Fprintf(os.Stderr, "simplifier discharges %s (goal true: %v, pc false: %v)\n", j.o.name, j.o.goal == True, j.o.pc == False)
+			}
 			j.o.status = "discharged"
 			j.o.solver = "simplifier"
 			continue
